@@ -50,9 +50,10 @@ def run(prop, tier, seed, repo):
         for i, c in enumerate(cases):
             sessions.append({"tid": i + 1, "names": [g["name"] for g in c["games"]],
                              "kinds": [g["kind"] for g in c["games"]], "file": c["file"],
-                             "tgs": [g["tg"] for g in c["games"]], "style": i % 2})
+                             "tgs": [g["tg"] for g in c["games"]], "style": i % 2,
+                             "flags": [g.get("ps", "none") for g in c["games"]]})
         jobs = [{"kind": "batch", "names": s["names"], "tgs": s["tgs"], "file": s["file"], "style": s["style"],
-                 "dotslash": s["tid"] % 3 == 0, "budget": 120.0} for s in sessions]
+                 "dotslash": s["tid"] % 3 == 0, "flags": s["flags"], "budget": 120.0} for s in sessions]
         t1 = time.time()
         results = pool.run_jobs(jobs, repo, budget=120.0)
         for s, (events, status) in zip(sessions, results):
@@ -103,7 +104,8 @@ def run(prop, tier, seed, repo):
             if bad:
                 res.add_violation("; ".join(sorted(bad)),
                                   {"kind": "batch", "property": prop, "names": s["names"], "kinds": s["kinds"],
-                                   "tgs": s["tgs"], "file": s["file"], "style": s["style"], "fails": sorted(bad)})
+                                   "tgs": s["tgs"], "file": s["file"], "style": s["style"], "flags": s["flags"],
+                                   "fails": sorted(bad)})
         mc(res, tier)
         cov = res.coverage
         cov["evaluations"] = len(sessions)
@@ -130,7 +132,8 @@ def run(prop, tier, seed, repo):
 
 
 def replay(rep, repo):
-    job = {"kind": "batch", "names": rep["names"], "tgs": rep["tgs"], "file": rep["file"], "style": rep["style"]}
+    job = {"kind": "batch", "names": rep["names"], "tgs": rep["tgs"], "file": rep["file"], "style": rep["style"],
+           "flags": rep.get("flags", [])}
     (events, status), = pool.run_jobs([job], repo, nproc=1, budget=120.0)
     ev = events[0] if events else {}
     print("names:", rep["names"], "kinds:", rep["kinds"], status)
